@@ -213,7 +213,8 @@ Section Static.
     assert (Hnd' : NoDup (c :: t)).
     { eapply Permutation_NoDup; [|eapply cands_NoDup; eauto]. rewrite <- Hsort. apply sort_desc_perm. }
     inversion Hnd' as [|? ? Hnotin _]; subst.
-    rewrite filter_all_false; [reflexivity|].
+    replace (grp [c] t) with (@nil cand); [reflexivity|]. symmetry. apply grp_single_nil_iff.
+    apply filter_all_false.
     intros x Hx. assert (Hxc : In x cs) by (apply sort_desc_In; rewrite Hsort; now right).
     destruct (Hall x Hxc) as [->|[_ Hd]]; [contradiction|now rewrite Hd].
   Qed.
@@ -228,7 +229,7 @@ Section Static.
     intros Hnd Hst Hk Hc Hrun.
     rewrite (lookup_unfold _ _ _ _ _ _ _ Hc) in Hrun.
     destruct (sort_desc cs) as [|c1 rest] eqn:Hsort; [discriminate|].
-    unfold rank_outcome in Hrun. destruct (filter _ rest) eqn:Hf; [|discriminate]. injection Hrun as <-.
+    unfold rank_outcome in Hrun. destruct (grp _ rest) eqn:Hf; [|discriminate]. injection Hrun as <-.
     assert (Hc1 : In c1 cs) by (apply sort_desc_In; rewrite Hsort; now left).
     pose proof (proj1 (cand_In _ _ _ _ _ _ _ _ Hc) Hc1) as (lv & Ht & Hm & _ & Hsp).
     pose proof (static_ms_meth _ _ Hst Hm) as Hsm.
